@@ -320,3 +320,19 @@ for _k, _v in MORE7.items():
     MORE[_k] = (MORE[_k] + ' ' if _k in MORE else '') + _v
 NOTES += (' Local closures absent from the reference tree are inlined like module-level helpers. Measured on 108 stored behaviour-preserving refactorings '
           '(twins/, three independent batches): no false VIOLATION; some end in exit 2 on a property whose rules cannot follow the rewrite.')
+
+
+MORE8 = {
+    'C01': 'R01.19 diff keys are the lookup keys (C11 R11.6); R01.20 items are never memo keys (C02 R02.5); R01.21 predicate operand order (C02 R02.20).',
+    'C02': 'R02.21 patches descend only into same-kind containers (C11 R11.3); R02.22 the strict equality is reflexive (NaN).',
+    'C03': 'R03.27 resolvers drop surviving decisions on entries they write themselves; R03.28 onesided() only with one empty operand (finite evaluation); R03.29 Strategies.transients is never None.',
+    'C04': 'R04.11 level-relative actions (clear, remove, clear_all, take_max) are not moved to another level and kept; R04.12 output files are UTF-8.',
+    'C05': 'R05.13 one line model (C07 R07.8); R05.14 as R02.22.',
+    'C08': 'R08.11 (corrected) the stdout notebook is ASCII-only unless the stream is UTF-8; R08.15 as R04.12; R08.16 the output is opened only when the complete content exists.',
+    'C11': 'R11.14 combine_patches joins insertions of one index; R11.15 hand-built removals have a positive length.',
+    'C17': 'R17.4 decides is_gitref by truth table; R17.17 evaluates resolve_diff_args over its 16 command-line shapes.',
+}
+for _k, _v in MORE8.items():
+    MORE[_k] = (MORE[_k] + ' ' if _k in MORE else '') + _v
+NOTES += (' known_findings.json also lists, under "documented", genuine defects found by experiment that no static rule decides (C04 x4, C06 x2, C08, C10): the checks '
+          'print them as KNOWN-FINDING lines and match nothing against them.')
